@@ -131,6 +131,10 @@ def run(tier):
                 # epoch NUMBER: exact for whole microseconds only through integer seconds + the object's microseconds; use integer seconds
                 whole = aware_in.replace(microsecond=0)
                 forms["epoch"] = (instant(whole)[0] * 86400 + instant(whole)[1])
+                # ... and an epoch number with a FRACTION that a float holds exactly (half a second; round g): before 1970 the
+                # number is negative, where truncation and floor part ways
+                if abs(forms["epoch"]) < 2 ** 40:
+                    forms["epoch_half"] = forms["epoch"] + 0.5
         except Exception:
             pass
         # the same value made with the field type's OWN constructors (inherited from datetime): instances of the field type
@@ -146,6 +150,8 @@ def run(tier):
             forms["ft_replace_tzinfo_none"] = ft.datetime(aware_in).replace(tzinfo=None)
         for form, value in forms.items():
             exp_inst = in_inst if form != "epoch" else instant(aware_in.replace(microsecond=0))
+            if form == "epoch_half":
+                exp_inst = instant(aware_in.replace(microsecond=500000))
             try:
                 rec = D(value, 1, _generated=gen.GEN)
                 stored = rec.ts
@@ -252,5 +258,5 @@ def run(tier):
         ctx.violation({"check": v["inv"], "tz": c["tz"], "year": c["year"], "form": c["form"], "fmt": c["fmt"], "raised": c["raised"]}, {"case": c})
     ctx.count(len(cases), len(cases))
     ctx.extra["rule"] = "matrix tzinfo kind x year class x input form x storage format (binary on file object, binary gz path, json, sqlite, avro) + 6 display/TZ settings in sub-processes"
-    ctx.assumptions += ["instants are computed and compared in Python as (days, seconds, microseconds) integers; the model decides kinds, not numbers", "an epoch NUMBER is given in whole seconds"]
+    ctx.assumptions += ["instants are computed and compared in Python as (days, seconds, microseconds) integers; the model decides kinds, not numbers", "an epoch NUMBER is given in whole seconds, or whole seconds plus exactly one half"]
     return ctx.finish()
